@@ -2,7 +2,7 @@
 per denomination (R-cons/out), invariants I1-I7 re-established at every write (R-inv), nothing stranded when an order leaves the book."""
 from engine import *
 from money import *
-from book import remove_iff_zero, record_base
+from book import remove_iff_zero, record_base, persistence_identity
 from invariants import check_I2, check_I4, check_I7, l_uns, ask_state, CB_PATH
 from c07 import funds_rule
 PROP = 'C01'
@@ -116,6 +116,8 @@ def run(eng, tier):
             check_exact_conversions(eng, PROP, p)
             remove_iff_zero(eng, PROP, p)
             check_I2(eng, PROP, p); check_I4(eng, PROP, p); check_I7(eng, PROP, p)
+    # the books are what was written: storage round-trips every field of every persisted record
+    persistence_identity(eng, PROP)
     # ModifyContract moves no funds
     for p in eng.paths('execute', 'ok', 'ModifyContract'):
         eng.ob(not p.messages, PROP, 'no-other-outflow', 'ModifyContract', 'a configuration change emits messages')
